@@ -480,7 +480,9 @@ func generatePropertyGet(file *jen.File, serviceName string,
 		jen.Id(`if err != nil {
 		    return ret, fmt.Errorf("read response: %s", err)
 		}`),
-		jen.Id(`s, err := basic.ReadString(&buf)`),
+		jen.List(jen.Id("s"), jen.Err()).Op(":=").Qual(
+			"github.com/lugu/qiloop/type/basic", "ReadString",
+		).Call(jen.Op("&").Id("buf")),
 		jen.Id(`if err != nil {
 		    return ret, fmt.Errorf("read signature: %s", err)
 		}`),
